@@ -61,6 +61,38 @@ pub fn gen_solver<VS: HSet>(sink: &mut Sink, prop: &str, thorough: bool, seed: u
     if VS::KIND == "range" {
         exhaustive_scope::<VS>(sink, prop, thorough, debug);
     }
+    // deep runs: a few hundred decision levels (8-bit narrowing of levels / indices shows)
+    let n_deep = if thorough { 40 } else { 12 };
+    let mut crossing = 0usize;
+    for _ in 0..n_deep {
+        // rejection sampling: prefer a run with a backjump from above decision level 256 to below it
+        let mut chosen: Option<SolveEval<VS>> = None;
+        for attempt in 0..12 {
+            let reg = deep_registry::<VS>(&mut rng, &versions);
+            let rvs = reg.versions("root");
+            let rv = if rvs.is_empty() { 1 } else { rvs[rng.below(rvs.len() as u64) as usize] };
+            let r = SolveReq { debug, root: "root".into(), rv, reg, strat: Strat::FillersFirst, fault: Fault::None };
+            let e = eval_solve(&r);
+            let dls: Vec<u32> = e.imp.split("ps;dl=").skip(1).filter_map(|t| t.split(|c: char| !c.is_ascii_digit()).next().and_then(|d| d.parse().ok())).collect();
+            let crosses = dls.windows(2).any(|w| w[0] >= 256 && w[0] <= 262 && w[1] < 250 && w[1] > 1);
+            if crosses || attempt == 11 {
+                if crosses {
+                    crossing += 1;
+                }
+                chosen = Some(e);
+                break;
+            }
+        }
+        let e = chosen.unwrap();
+        for (p, w) in &e.failures {
+            if *p != prop {
+                sink.tag(&format!("oracle_failure_of_other_property_{}", p), 1);
+            }
+        }
+        sink.push(eval_to_case(e, prop));
+    }
+    sink.tag("deep_runs_with_a_backjump_across_level_256", crossing as u64);
+    sink.notes.push(format!("{} deep runs: 248..255 filler packages decided (after the first layer) (one decision level each) in front of a layered registry, so that conflicts and backjumps straddle decision level 256 ({} of them with a backjump from above 256 to below it)", n_deep, crossing));
     for i in 0..n_random {
         let reg = if i % 12 == 11 {
             big_registry::<VS>(&mut rng, &versions)
